@@ -56,7 +56,7 @@ Theorem C04_exact_cells :
     last_frame (fst (fst (draw beh s st c))) = c.
 Proof.
   intros cfg beh Huni s st v c S Hsz Hwf Hf Hns v'.
-  destruct (draw_correct cfg beh Huni s st v c S Hsz Hwf Hf Hns) as (_ & _ & H3 & _ & H5).
+  destruct (draw_correct cfg beh Huni s st v c S Hsz Hwf Hf Hns) as (_ & _ & H3 & _ & H5 & _).
   split; [exact H5|exact H3].
 Qed.
 Print Assumptions C04_exact_cells.
